@@ -45,6 +45,7 @@ WALL = {'quick': 70, 'thorough': 560}
 KEY_TUPLE = 'C13:sizemults:tuple'
 KEY_MUT = 'C13:sizemults:list-mutated'
 KEY_ANTI = 'C13:rcell:anticyclic-mn:turned-180-about-n'
+KEY_FACE = 'C13:array:screw:atom-on-upper-face-duplicated'
 KEY_SKEW = 'C13:rcell:nondefault-mn:lammps-orientation-not-solution-frame'
 
 CAP = 3000          # atoms per configuration
@@ -643,6 +644,23 @@ def count_close(pos_a, pos_b_images, r):
     return int(ta.count_neighbors(tb, r))
 
 
+def overlap_violation(c, q, qi, r_ov, cutoff, bp, vects, origin, bm):
+    """raise the overlap violation; keyed when it is the screw / atom-on-the-upper-face class"""
+    from scipy.spatial import cKDTree
+    N = len(q)
+    hits = cKDTree(qi).query_ball_point(q, r_ov)          # qi holds the 9 in-plane images, block 4 is the identity
+    real = sorted({(min(i, j % N), max(i, j % N)) for i, lst in enumerate(hits) for j in lst if j % N != i})
+    detail = ('%d pairs of remaining atoms closer than %.3g (cutoff %.3g) across the in-plane periodic directions (linear field): first %r at reference positions %r / %r'
+              % (len(real), r_ov, cutoff, real[:1], bp[real[0][0]].tolist() if real else None, bp[real[0][1]].tolist() if real else None))
+    key = None
+    if real and abs(bm) <= 1e-9 * c.bmag:
+        s = cm.rel_coords(bp, vects, origin)[:, c.motion]
+        if all(max(s[i], s[j]) > 1 - 1e-6 for i, j in real):
+            key = KEY_FACE
+            detail += ' - pure screw, one atom of every pair sits on the upper in-plane face of the reference box (relative coordinate 1 - eps)'
+    raise Violation(detail, key=key)
+
+
 def run_array(c, case, labels, cap=CAP):
     """calls periodicarray for the case.  Returns None on a documented refusal (labels updated), else a dict."""
     d = c.d
@@ -677,6 +695,14 @@ def run_array(c, case, labels, cap=CAP):
                 labels.add('refusal'); labels.add('refusal_' + lab)
                 if lab == 'noninteger':
                     require(frac > 1e-9 * max(1.0, nrem), lambda: 'refused as non-integer deletion count, but N |b.m| / 2L = %.12g (N=%d, b.m=%.9g, L=%.9g)' % (nrem, nfull, bm, L))
+                if lab == 'mismatch':
+                    # "adjust dimensions / cutoff" is the tool giving up on *finding* the duplicates; the number it set out
+                    # to delete must still be the one implied by the edge component
+                    import re
+                    mm = re.search(r'expected (-?\d+), found (-?\d+)', msg)
+                    require(mm is not None, lambda: 'unparsable refusal: ' + msg)
+                    require(int(mm.group(1)) == int(round(nrem)) and frac <= 1e-4 * max(1.0, nrem),
+                            lambda: 'refusal %r, but the edge component implies N |b.m| / (2 L) = %.9g deletions (N=%d, b.m=%.9g, L=%.9g)' % (msg, nrem, nfull, bm, L))
                 return None
         raise
     require(frac <= 1e-4 * max(1.0, nrem), lambda: 'N |b.m| / (2 L) = %.9g is not an integer, yet a configuration was returned (N=%d)' % (nrem, nfull))
@@ -733,14 +759,14 @@ def oracle_array(case):
     require(oid.dtype.kind in 'iu' and oid.shape == (disl.natoms,), lambda: 'old_id dtype %r shape %r' % (oid.dtype, oid.shape))
     require(np.all(np.diff(oid) > 0) and oid.min() >= 0 and oid.max() < nfull, 'old_id is not strictly increasing within the reference range')
     bp = np.array(base.atoms.pos, dtype=float)
-    require(np.abs(bp - fp[oid]).max() <= 1e-12 * (1 + np.abs(fp).max()), lambda: 'returned base system is not the reference system at old_id (max difference %.3g)' % np.abs(bp - fp[oid]).max())
+    rb, _ = reduce_mod(bp - fp[oid], vects)       # the same sites; an atom on a box face may be kept on either face
+    require(np.abs(rb).max() <= 1e-9 * (1 + np.abs(fp).max()), lambda: 'returned base system is not the reference system at old_id (max difference %.3g modulo the box)' % np.abs(rb).max())
     require(np.array_equal(np.array(base.atoms.atype), ft[oid]), 'returned base atom types differ from the reference at old_id')
     probs = crystal_problems(c, bp, np.array(base.atoms.atype), c.shift)
     require(not probs, lambda: 'returned base system: ' + '; '.join(probs))
     # deleted atoms are duplicates / nothing left overlaps, in the configuration where that is defined (linear field)
-    lin_all = fp + my_linear(fp - center, c.b, L, c.m_ax, c.n_ax)
     kept = np.zeros(nfull, dtype=bool); kept[oid] = True
-    q = lin_all[kept]
+    q = bp + my_linear(bp - center, c.b, L, c.m_ax, c.n_ax)      # from the positions the configuration was built on
     v1, v2 = newv[c.line], newv[c.motion]
     qi = images_2d(q, v1, v2)
     # "overlapping": closer than the duplicate cutoff, but never demanding more than the crystal allows - atoms of the two
@@ -748,9 +774,10 @@ def oracle_array(case):
     gya, gyb = gap_at_zero(c, np.array(d.rcell.atoms.pos), c.shift)
     r_ov = min(cutoff, 0.9 * (gya - gyb), 0.5 * c.cr['a'] * g.DNN[c.cr['struct']])
     nclose = count_close(q, qi, r_ov)
-    require(nclose == len(q), lambda: '%d pairs of remaining atoms closer than %.3g (cutoff %.3g) across the in-plane periodic directions (linear field)' % ((nclose - len(q)) // 2, r_ov, cutoff))
+    if nclose != len(q):
+        overlap_violation(c, q, qi, r_ov, cutoff, bp, vects, origin, r['bm'])
     if nrem:
-        gone = lin_all[~kept]
+        gone = fp[~kept] + my_linear(fp[~kept] - center, c.b, L, c.m_ax, c.n_ax)
         from scipy.spatial import cKDTree
         dist, _ = cKDTree(qi).query(gone)
         require(dist.max() < cutoff, lambda: 'deleted atom %d is %.4g from the nearest remaining atom: not a duplicate' % (int(np.where(~kept)[0][np.argmax(dist)]), dist.max()))
@@ -771,7 +798,8 @@ def oracle_array(case):
         # the generated configuration itself is overlap free
         di = images_2d(dp, v1, v2)
         nclose = count_close(dp, di, r_ov)
-        require(nclose == len(dp), lambda: '%d overlapping pairs in the generated linear array' % ((nclose - len(dp)) // 2))
+        if nclose != len(dp):
+            overlap_violation(c, dp, di, r_ov, cutoff, bp, vects, origin, r['bm'])
     else:
         usol = solution_u(c, x)
         umax = np.abs(usol @ c.n_ax).max() + 1e-9
@@ -840,12 +868,35 @@ def disreg_cases(draw):
     return cs
 
 
-def tail_bound(c, xs, ya, yb, cm_x, dx):
+def tail_prefactors(c):
+    """(Pn-, Pn+, Px-, Px+): |du/dn| = Pn |b| / (2 pi |x|) and |du/dm| = Px |b| / (2 pi |x|) on the rays x < 0 and x > 0 of
+    the slip plane (the field is homogeneous of degree 0 apart from its logarithm, its gradient of degree -1): for an
+    isotropic screw Pn = 1, Px = 0; isotropic edge Pn = 1 + 1/(2(1-nu))"""
+    pn, px = [], []
+    eps = 1e-4
+    for sgn in (-1.0, 1.0):
+        pts = np.array([sgn * c.m_ax + eps * c.n_ax, sgn * c.m_ax + 2 * eps * c.n_ax, sgn * (1 + eps) * c.m_ax + eps * c.n_ax])
+        u = solution_u(c, pts)
+        pn.append(2 * math.pi * float(np.linalg.norm(u[1] - u[0])) / eps / c.bmag)
+        px.append(2 * math.pi * float(np.linalg.norm(u[2] - u[0])) / eps / c.bmag)
+    return pn + px
+
+
+def tail_bound(c, xlo, xhi, ya, yb, smax):
+    """The two rows adjoining the slip plane sit at heights ya > 0 > yb.  To first order in h/|x| the disregistry is
+    b [x < 0] + (ya - yb) du/dn(x, 0), so  d(x_lo) - d(x_hi) - b = (ya - yb) (du/dn(x_lo) - du/dn(x_hi)) (1 + O(h^2/x^2)).
+    Bound: 1.25 x the sum of the two magnitudes, the relative second order term with a factor 10, plus the error of
+    interpolating each row linearly between its columns (spacing <= smax): smax^2 / 8 x |d2u/dm2| per row."""
     h = (ya - yb) / 2
-    xmin, xmax = xs[0] - cm_x, xs[-1] - cm_x
-    if xmin >= -1e-9 or xmax <= 1e-9:
+    if xlo >= -1e-9 or xhi <= 1e-9:
         return None
-    return 3 * c.bmag * h / math.pi * (1 / abs(xmin) + 1 / abs(xmax)) + 2 * c.bmag * h * dx / math.pi * (1 / xmin ** 2 + 1 / xmax ** 2), h, xmin, xmax
+    pnm, pnp, pxm, pxp = tail_prefactors(c)
+    X = min(abs(xlo), abs(xhi))
+    hh = max(ya, -yb)
+    first = c.bmag * h / math.pi * (pnm / abs(xlo) + pnp / abs(xhi))
+    interp = 2 * smax ** 2 / 8 * c.bmag / (2 * math.pi) * max(pnm, pnp, pxm, pxp, 1.0) * 2 * (1 / xlo ** 2 + 1 / xhi ** 2)
+    bound = 1.25 * first * (1 + 10 * (hh / X) ** 2) + interp
+    return bound, h, xlo, xhi
 
 
 def disreg_once(c, case, labels, motion_mult=None):
@@ -887,8 +938,38 @@ def disreg_once(c, case, labels, motion_mult=None):
             lambda: 'disregistry coordinates [%r .. %r] do not span the columns adjoining the slip plane [%r .. %r]' % (xs[0], xs[-1], allx[0], allx[-1]))
     # spacing of the columns in either plane bounds the flat extrapolation of the shorter row
     dx = max(abs(xa.min() - xb.min()), abs(xa.max() - xb.max()))
-    total = dis[0] - dis[-1]
-    return dict(xs=xs, dis=dis, total=total, ya=ya, yb=yb, dx=dx, center=center, periods=periods, L=L, base=base, exp=exp,
+    # bookkeeping, re-done: minimum-image displacements of the two rows, averaged per column, interpolated on the union
+    dp = np.array(disl.atoms.pos, dtype=float)
+    P = np.array(periods, dtype=float)
+    coef = np.linalg.lstsq(P.T, (dp - bp).T, rcond=None)[0].T
+    if True:
+        disp = (dp - bp) - np.rint(coef) @ P
+        frac_ = np.abs(coef - np.rint(coef))
+        rows = []
+        safe = True
+        for yy in (ya, yb):
+            sel = np.abs(y - cy - yy) < 1e-6
+            safe = safe and frac_[sel].max() < 0.45
+            xr = bp[sel] @ c.m_ax
+            xx = np.round(xr, 6)
+            keys = np.unique(xx)
+            mean = np.array([disp[sel][xx == v].mean(axis=0) for v in keys])
+            rows.append((np.array([xr[xx == v].mean() for v in keys]), mean))
+        if safe:
+            mine = (np.array([np.interp(xs, rows[0][0], rows[0][1][:, j]) for j in range(3)]).T
+                    - np.array([np.interp(xs, rows[1][0], rows[1][1][:, j]) for j in range(3)]).T)
+            err = np.abs(mine - dis).max()
+            require(err <= 1e-7 * (1 + c.bmag), lambda: 'disregistry differs from (mean displacement of the row above) - (row below), interpolated on the '
+                    'union of the column coordinates, by %.3g at x=%r' % (err, xs[int(np.argmax(np.abs(mine - dis).max(axis=1)))]))
+            labels.add('bookkeeping')
+    # the outermost coordinates at which both rows have a column (beyond them the tool extrapolates one row flat)
+    lo, hi = max(xa.min(), xb.min()) - 1e-5, min(xa.max(), xb.max()) + 1e-5
+    inner = np.where((xs >= lo) & (xs <= hi))[0]
+    require(len(inner) >= 2, 'harness: rows adjoining the slip plane do not overlap')
+    ilo, ihi = int(inner[0]), int(inner[-1])
+    total = dis[ilo] - dis[ihi]
+    smax = max(float(np.diff(np.unique(np.round(xa, 6))).max(initial=0.0)), float(np.diff(np.unique(np.round(xb, 6))).max(initial=0.0)))
+    return dict(xs=xs, dis=dis, total=total, xlo=float(xs[ilo]), xhi=float(xs[ihi]), smax=smax, safe=safe, ya=ya, yb=yb, dx=dx, center=center, periods=periods, L=L, base=base, exp=exp,
                 vects=vects)
 
 
@@ -901,10 +982,15 @@ def oracle_disregistry(case):
     if r is None:
         return labels
     cm_x = float(r['center'] @ c.m_ax)
+    if not r['safe']:
+        # a displacement in the rows adjoining the slip plane is within 5 % of half a period of the system: its minimum image
+        # (which the tool averages and interpolates) is not defined
+        labels.add('image_ambiguous')
+        return labels
 
     def error_of(r):
-        if case['kind'] == 'array_linear' or (case['kind'] == 'array' and in_band(r)):
-            expected = c.b * (r['xs'][-1] - r['xs'][0]) / r['L']
+        if case['kind'] == 'array_linear' or (case['kind'] == 'array' and in_band(r) == 'both'):
+            expected = c.b * (r['xhi'] - r['xlo']) / r['L']
         else:
             expected = c.b
         resid, _ = reduce_mod((r['total'] - expected)[None, :], r['periods'])
@@ -921,32 +1007,38 @@ def oracle_disregistry(case):
         if yhi < ylo:
             ylo, yhi = yhi, ylo
         cy = float(r['center'] @ c.n_ax)
-        return (cy + r['yb'] <= ylo + w + 1e-6) or (cy + r['ya'] >= yhi - w - 1e-6)
+        # 'both' rows get the linear field, 'none', or 'mixed' (one row each / on the edge of the band: no statement)
+        lo_in, hi_in = cy + r['yb'] <= ylo + w, cy + r['ya'] >= yhi - w
+        edge = min(abs(cy + r['yb'] - (ylo + w)), abs(cy + r['ya'] - (yhi - w))) < 1e-6
+        return 'mixed' if (edge or lo_in != hi_in) else 'both' if lo_in else 'none'
 
+    if case['kind'] == 'array' and in_band(r) == 'mixed':
+        labels.add('rows_straddle_band')
+        return labels
     err = error_of(r)
-    if case['kind'] == 'array_linear' or (case['kind'] == 'array' and in_band(r)):
-        # exact: both rows follow the linear field; flat extrapolation of the shorter row costs at most |b| dx / L
-        tol = 1e-8 * (1 + c.bmag) + c.bmag * r['dx'] / r['L']
-        require(err <= tol, lambda: 'linear field: disregistry(x_min) - disregistry(x_max) = %r, expected b (x_max - x_min)/L = %r (error %.3g, tol %.3g)'
-                % (r['total'].tolist(), (c.b * (r['xs'][-1] - r['xs'][0]) / r['L']).tolist(), err, tol))
+    if case['kind'] == 'array_linear' or (case['kind'] == 'array' and in_band(r) == 'both'):
+        # exact: both rows follow the linear field, and linear interpolation of a linear function is exact
+        tol = 1e-8 * (1 + c.bmag)
+        require(err <= tol, lambda: 'linear field: disregistry(x_lo) - disregistry(x_hi) = %r, expected b (x_hi - x_lo)/L = %r (error %.3g, tol %.3g)'
+                % (r['total'].tolist(), (c.b * (r['xhi'] - r['xlo']) / r['L']).tolist(), err, tol))
         labels.add('exact_linear')
         return labels
-    tb = tail_bound(c, r['xs'], r['ya'], r['yb'], cm_x, r['dx'])
+    tb = tail_bound(c, r['xlo'] - cm_x, r['xhi'] - cm_x, r['ya'], r['yb'], r['smax'])
     if tb is None:
         labels.add('core_outside_rows')
         return labels
     bound, h, xmin, xmax = tb
     labels.add('tail')
-    require(err <= bound + 1e-8, lambda: 'disregistry(x_min) - disregistry(x_max) = %r, b = %r: error %.4g exceeds the tail bound %.4g (h=%.4g, x_min=%.4g, x_max=%.4g)'
+    require(err <= bound + 1e-8, lambda: 'disregistry(x_lo) - disregistry(x_hi) = %r, b = %r: error %.4g exceeds the tail bound %.4g (h=%.4g, x_lo=%.4g, x_hi=%.4g)'
             % (r['total'].tolist(), c.b.tolist(), err, bound, h, xmin, xmax))
     labels.add('ratio_%d' % min(9, int(10 * err / bound)))
     if case.get('triple') and case['kind'] == 'monopole':
         m0 = r['exp'][c.motion]
         if c.d.rcell.natoms * r['exp'][0] * r['exp'][1] * r['exp'][2] * 3 <= 2 * CAP:
             r3 = disreg_once(c, case, labels, motion_mult=3 * m0)
-            if r3 is not None and r3['exp'][c.motion] == 3 * m0:
+            if r3 is not None and r3['exp'][c.motion] == 3 * m0 and r3['safe']:
                 err3 = error_of(r3)
-                tb3 = tail_bound(c, r3['xs'], r3['ya'], r3['yb'], cm_x, r3['dx'])
+                tb3 = tail_bound(c, r3['xlo'] - cm_x, r3['xhi'] - cm_x, r3['ya'], r3['yb'], r3['smax'])
                 require(tb3 is not None and err3 <= tb3[0] + 1e-8, lambda: 'tripled width: error %.4g exceeds the bound %r' % (err3, tb3))
                 require(err3 <= max(0.75 * err, 1e-7), lambda: 'tripling the in-plane width did not reduce the disregistry error: %.4g -> %.4g' % (err, err3))
                 labels.add('tripled')
@@ -1009,13 +1101,18 @@ def oracle_sizemults(case):
 
 CLAUSES = [
     Clause('reference', oracle_reference, reference_cases, quick=1400, thorough=24000,
+           min_share={'nt': 0.04, 'frame_ok': 0.2, 'hcp': 0.01, 'mn_cyclic': 0.08},
            desc='rcell/uvws/transform/shifts and the reference system: the unit cell crystal rotated by transform, shifted, filling the box once'),
     Clause('monopole', oracle_monopole, monopole_cases, quick=2000, thorough=36000,
+           min_share={'nt': 0.06, 'bd_mixed': 0.12, 'bd_cylinder': 0.06, 'bd_box': 0.06, 'center_scaled': 0.03, 'center_abs': 0.05,
+                      'wrapped_along_line': 0.15},
            desc='monopole: all reference atoms kept, displaced by the solution at (reference position - centre), periodic along the line only, boundary atoms re-typed exactly outside the box / cylinder region'),
     Clause('array', oracle_array, array_cases, quick=2000, thorough=36000,
+           min_share={'nt': 0.06, 'removed': 0.15, 'interior': 0.12, 'band': 0.07, 'linear': 0.06}, max_share={'refusal': 0.25},
            desc='periodic array: deletion count from the edge component, deleted atoms are duplicates, no overlap in-plane, old_id maps back, linear / solution displacement re-derived, pbc and box'),
     Clause('disregistry', oracle_disregistry, disreg_cases, quick=1200, thorough=20000,
-           desc='disregistry across the slip plane accumulates to b up to the analytic tail bound (exactly b (x_max-x_min)/L for the linear field); error shrinks when the width is tripled'),
-    Clause('sizemults', oracle_sizemults, sizemults_cases, quick=400, thorough=4000,
+           min_share={'nt': 0.05, 'tail': 0.12, 'exact_linear': 0.03, 'bookkeeping': 0.15, 'tripled': 0.01}, max_share={'refusal': 0.25},
+           desc='disregistry across the slip plane accumulates to b up to the analytic tail bound (exactly b (x_hi-x_lo)/L for the linear field); error shrinks when the width is tripled'),
+    Clause('sizemults', oracle_sizemults, sizemults_cases, quick=400, thorough=4000, min_share={'monopole': 0.1},
            desc='sizemults as the documented tuple equals the list result; a list argument is left untouched and the call is repeatable'),
 ]
